@@ -1,6 +1,7 @@
 package harness
 
 import (
+	"os"
 	"fmt"
 	"math/rand"
 	"reflect"
@@ -301,10 +302,22 @@ func genBaseSpec(rng *rand.Rand, allowDefault bool) SubSpec {
 	return s
 }
 
-// genStratSpec draws a strategy: base, compound or decorated, nesting depth <= 2.
+// deepTier: the thorough tier also draws three levels of combinators, more calls per instance,
+// longer periods and larger channel capacities (the generators read it; cases are self-contained,
+// so replay does not depend on it).
+var deepTier = os.Getenv("VERIF_TIER") == "thorough"
+
+func maxNest() int {
+	if deepTier {
+		return 3
+	}
+	return 2
+}
+
+// genStratSpec draws a strategy: base, compound or decorated, nesting depth <= 2 (thorough: 3).
 func genStratSpec(rng *rand.Rand, depth int, allowDefault bool) SubSpec {
 	x := rng.Intn(100)
-	if depth >= 2 || x < 55 {
+	if depth >= maxNest() || x < 55 {
 		return genBaseSpec(rng, allowDefault)
 	}
 	name := combinators[rng.Intn(len(combinators))]
@@ -319,7 +332,7 @@ func genStratSpec(rng *rand.Rand, depth int, allowDefault bool) SubSpec {
 		s.Pct = []float64{0.01, 0.05, 0.2}[rng.Intn(3)]
 	}
 	for i := 0; i < n; i++ {
-		if depth+1 < 2 && rng.Intn(4) == 0 {
+		if depth+1 < maxNest() && rng.Intn(4) == 0 {
 			s.Subs = append(s.Subs, genStratSpec(rng, depth+1, allowDefault))
 		} else {
 			s.Subs = append(s.Subs, genBaseSpec(rng, allowDefault))
